@@ -302,9 +302,38 @@ func genC05shared(r *Rand, p *Plan, tier string) {
 	p.Tape = r.Tape(1500)
 }
 
+// genC05client: the library client as receiver: requests pipelined with SendOnly, the
+// model server's replies coalesced and segmented by the tape, collected by later Sends.
+func genC05client(r *Rand, p *Plan, tier string) {
+	p.Family = "framing-client"
+	p.Scen.Server = "none"
+	cs := rcClient(r, 0, "C05")
+	var sends []int
+	for i, o := range cs.Ops {
+		if o.Kind == "send" {
+			sends = append(sends, i)
+		}
+	}
+	// some requests go out without waiting for their reply; enough plain Sends follow
+	nOnly := 0
+	for _, i := range sends {
+		if nOnly < len(sends)/2 && r.Chance(60) {
+			cs.Ops[i].Pkt.Only = true
+			nOnly++
+		}
+	}
+	p.Scen.Clients = []ClientSpec{cs}
+	p.Tape = r.Tape(1500)
+	p.MaxSteps = 4000
+}
+
 func genC05(r *Rand, p *Plan, tier string) {
 	if r.Chance(12) {
 		genC05shared(r, p, tier)
+		return
+	}
+	if r.Chance(8) {
+		genC05client(r, p, tier)
 		return
 	}
 	p.Family = "framing"
